@@ -2,12 +2,16 @@ package larking
 
 import (
 	"context"
+	"io"
+	"math"
 	"net"
 
 	"github.com/gobwas/ws"
 	"github.com/gobwas/ws/wsutil"
 	"google.golang.org/grpc"
+	"google.golang.org/grpc/codes"
 	"google.golang.org/grpc/metadata"
+	"google.golang.org/grpc/status"
 	"google.golang.org/protobuf/encoding/protojson"
 	"google.golang.org/protobuf/proto"
 )
@@ -15,6 +19,7 @@ import (
 const kindWebsocket = "WEBSOCKET"
 
 type streamWS struct {
+	opts       muxOptions
 	ctx        context.Context
 	conn       net.Conn
 	method     *method
@@ -75,6 +80,54 @@ func (s *streamWS) SendMsg(v interface{}) error {
 	return nil
 }
 
+// readMsg reads the next text or binary message like wsutil.ReadClientData,
+// refusing messages (all fragments included) larger than the maximum receive
+// message size.
+func (s *streamWS) readMsg() ([]byte, error) {
+	controlHandler := wsutil.ControlFrameHandler(s.conn, ws.StateServerSide)
+	rd := wsutil.Reader{
+		Source:         s.conn,
+		State:          ws.StateServerSide,
+		CheckUTF8:      true,
+		OnIntermediate: controlHandler,
+	}
+	max := int64(s.opts.maxReceiveMessageSize)
+	errTooLarge := status.Errorf(codes.ResourceExhausted, "websocket: received message larger than max (%d)", max)
+	for {
+		hdr, err := rd.NextFrame()
+		if err != nil {
+			return nil, err
+		}
+		if hdr.OpCode.IsControl() {
+			if err := controlHandler(hdr, &rd); err != nil {
+				return nil, err
+			}
+			continue
+		}
+		if hdr.OpCode&(ws.OpText|ws.OpBinary) == 0 {
+			if err := rd.Discard(); err != nil {
+				return nil, err
+			}
+			continue
+		}
+		if hdr.Length > max {
+			return nil, errTooLarge
+		}
+		limit := max
+		if limit < math.MaxInt64 {
+			limit++ // one byte more to detect an oversized fragmented message
+		}
+		b, err := io.ReadAll(io.LimitReader(&rd, limit))
+		if err != nil {
+			return nil, err
+		}
+		if int64(len(b)) > max {
+			return nil, errTooLarge
+		}
+		return b, nil
+	}
+}
+
 func (s *streamWS) RecvMsg(m interface{}) error {
 	s.recvN += 1
 	args := m.(proto.Message)
@@ -87,7 +140,7 @@ func (s *streamWS) RecvMsg(m interface{}) error {
 
 		msg := cur.Interface()
 
-		b, _, err := wsutil.ReadClientData(s.conn)
+		b, err := s.readMsg()
 		if err != nil {
 			return err
 		}
